@@ -21,7 +21,7 @@ RULE = ('one evaluation = one case = a batch of runs; a run = a fresh container 
         'intermediate_pose, ill-typed calls}, every answer (value or exception class) recorded. Streams: (A) all edit '
         'sequences over 2 timestamps x 2 devices up to the tier length (15 symbols incl. a cache-rebuilding query), each '
         'followed by a query battery (full battery up to length 3 quick / 4 thorough, 5 probing queries at the last '
-        'length; thorough adds a 10% sample of length 5), batched by common prefix; the same for RecordsCamera; (B) the '
+        'length; thorough adds a 6% sample of length 5), batched by common prefix; the same for RecordsCamera; (B) the '
         'same over 3 timestamps x 2 devices with pair edits only (16 symbols, length 3 quick / 4 thorough); (R) random runs of up to 200 operations over pools of 2..40 timestamps of 1..19 digits (also '
         'negative, also above sys.maxsize) and 1..4 devices, queries interleaved with edits; (M) ill-typed calls mixed '
         'into R. Non-trivial = the case has a run with an edit followed by a query; distinct = distinct batch content.')
@@ -240,7 +240,7 @@ def gen_cases(rng, tier):
         _exhaustive(_alphabet_a(), T2, 4, 'traj', cases, 'exhA-traj', light_from=4)
         _exhaustive(_alphabet_a()[:-1], T2, 3, 'camera', cases, 'exhA-rec')
     else:
-        _exhaustive(_alphabet_a(), T2, 4, 'traj', cases, 'exhA-traj', light_from=5, extra=(rng, 0.1))
+        _exhaustive(_alphabet_a(), T2, 4, 'traj', cases, 'exhA-traj', light_from=5, extra=(rng, 0.06))
         _exhaustive(_alphabet_a()[:-1], T2, 4, 'camera', cases, 'exhA-rec')
     # (B) exhaustive, 3 timestamps x 2 devices, pair edits
     if quick:
